@@ -466,7 +466,24 @@ def run_one(case):
             env0 = eng.env
             itr = InfEnvTracer(eng)
             eng.environment_sweeps(int(case.get('pre_env_sweeps', 0)))
+        canon = []
+        if case['bc'] == 'infinite' and case['engine'] in ('two', 'single'):
+            # DMRGEngine.post_run_cleanup -> _canonicalize calls psi.canonical_form() when the final state is not canonical up to
+            # norm_tol_final: record <H>/site and the norm error of the state the sweeps ended with
+            o_canon = psi.canonical_form
+
+            def canonical_form(**kw):
+                rec = {'E_before': None, 'norm_err_before': float(np.linalg.norm(psi.norm_test()))}
+                try:
+                    rec['E_before'] = float(np.real(M.H_MPO.expectation_value(psi)))
+                except Exception as e:
+                    rec['E_before_error'] = type(e).__name__ + ': ' + str(e)[:200]
+                canon.append(rec)
+                return o_canon(**kw)
+            psi.canonical_form = canonical_form
         E, psi = eng.run()
+        if canon:
+            out['canon'] = canon[-1]
         if itr is not None and eng.env is not env0:
             itr.problems.append('the engine replaced its environment during the run')
     except Exception as e:
